@@ -42,6 +42,7 @@ struct Opts {
     unwrap_default: bool,
     letanchors: Vec<String>, // local names after whose `let` an `after_let NAME K` anchor is emitted
     fieldty: Vec<(String, String)>, // struct take: replace the type of a field (R4 for `dyn Fn` fields)
+    structural: bool,       // struct/enum take: re-emit derive(PartialEq, Eq) as derive(Structural, PartialEq, Eq) when the original derives both
     r28: bool,              // R28: `X.and_then(|p| BODY)` with I/O in BODY -> `match X { Ok(p) => BODY, Err(e) => Err(e) }`
     mac_for: Option<(String, String)>, // macro instantiation: use the invocation whose metavariable .0 equals .1
     anchors: Vec<String>,   // callee names after whose enclosing statement an `after_call NAME K` anchor is emitted
@@ -76,6 +77,7 @@ fn parse_opts(s: &str) -> Opts {
             "nofmt" => o.nofmt = true,
             "anchors" => o.anchors = list(),
             "r28" => o.r28 = true,
+            "structural" => o.structural = true,
             "mac_for" => o.mac_for = v.split_once(':').map(|(a, b)| (a.to_string(), b.to_string())),
             "fieldty" => o.fieldty = list().iter().filter_map(|x| x.split_once(':').map(|(a, b)| (a.to_string(), b.to_string()))).collect(),
             "letanchors" => o.letanchors = list(),
@@ -520,7 +522,10 @@ impl VisitMut for Rw {
                             *e = parse_quote!(exit_pure(#args));
                         } else {
                             self.bump("R1");
-                            *e = parse_quote!(exit(world, #args));
+                            // every exit site states (in the overlay) the reason it claims; `exit`'s precondition checks it
+                            let k = { let e2 = self.closure_counts.entry("?exit".to_string()).or_insert(0); let k = *e2; *e2 += 1; k };
+                            let m = format_ident!("__verif_exit_reason_{}", k);
+                            *e = parse_quote!(exit(world, #args, #m!()));
                         }
                         return;
                     }
@@ -1423,6 +1428,10 @@ fn emit_item(key: &str, file: &str, mut it: Item, _o: &Opts) {
     println!("@@ITEM {key}");
     println!("@@META file={file} line_start={start} line_end={end} loops=0 closures=0 rewrites=R8:1 derives={}", derives.join(";").replace(' ', ""));
     println!("@@TEXT");
+    if _o.structural {
+        let d = derives.join(",");
+        if d.contains("PartialEq") { println!("#[derive(Structural, PartialEq, Eq)]"); } else { println!("@@UNSUPPORTED structural requested but the item does not derive PartialEq"); }
+    }
     println!("{}", pretty(it.to_token_stream()));
     for f in &from_impls { println!("{f}"); }
     println!("@@END");
